@@ -361,6 +361,13 @@ def _lookup_unit_symbol(symbol_str, unit_symbol_lut):
     )
 
 
+#: unyt's base dimension symbols by name; the library compares dimensions with
+#: these by identity
+_base_dimension_singletons = {
+    dim.name: dim for dim in unyt_dims.base_dimensions if dim.is_Symbol
+}
+
+
 def _correct_old_unit_registry(data, sympify=False):
     lut = {}
     for k, v in data.items():
@@ -400,6 +407,10 @@ def _correct_old_unit_registry(data, sympify=False):
                     unsan_v[0] /= 1000 ** float(power)
                 if dim == unyt_dims.length:
                     unsan_v[0] /= 100 ** float(power)
+        elif getattr(unsan_v[1], "is_Symbol", False):
+            # a base dimension that went through pickle is equal to, but not
+            # identical with, the singleton: swap it back
+            unsan_v[1] = _base_dimension_singletons.get(unsan_v[1].name, unsan_v[1])
 
         lut[k] = tuple(unsan_v)
     for k in default_unit_symbol_lut:
